@@ -352,6 +352,13 @@ class PipelineWorld:
             raise RuntimeError("unexpected command in _handle_completion: %r" % cmd)
 
         def mark(selfc):
+            if getattr(world, "fail_mark_once", False):
+                # the completion flag cannot be persisted: this copy of the config is stale (e.g. cancel-jobs wrote in
+                # the meantime) - what Cluster raises in that case
+                world.fail_mark_once = False
+                from jade.jobs.cluster import ConfigVersionMismatch
+                world.handover_marks.append(("mark_rejected", stage_of(selfc.config.path), True))
+                raise ConfigVersionMismatch("injected: stale config at mark_complete")
             r = real_mark(selfc)
             psn = selfc.config.pipeline_stage_num
             world.events.append(("mark", psn if psn is not None else -1))
@@ -361,7 +368,7 @@ class PipelineWorld:
         jsm.run_command = fake_run_command
         Cluster.mark_complete = mark
 
-    def complete_stage(self, k, with_results=True):
+    def complete_stage(self, k, with_results=True, fail_mark=False):
         """Run the real JobSubmitter._handle_completion on stage k's submission (as the last submitter of that
         submission would).  Returns (Status value | exception name, pipeline_stage_num of the submission)."""
         from jade.jobs.job_submitter import JobSubmitter
@@ -377,6 +384,7 @@ class PipelineWorld:
         cluster, _ = Cluster.deserialize(output, try_promote_to_submitter=True, deserialize_jobs=True)
         psn = cluster.config.pipeline_stage_num
         sink = io.StringIO()
+        self.fail_mark_once = bool(fail_mark)
         try:
             with contextlib.redirect_stdout(sink), contextlib.redirect_stderr(sink):
                 res = mgr._handle_completion(cluster)
